@@ -1,6 +1,7 @@
 """C17 - a generated sample policy file overrides nothing and states every
 default.  DESIGN 4/C17."""
 import io
+import os
 import itertools
 import json
 import re
@@ -151,6 +152,9 @@ def plan(tier, seed):
                          'n': b['all_kinds'], 'tier': tier,
                          'weight': hi - lo})
     jobs.append({'space': 'sections', 'tier': tier, 'weight': 200})
+    for first in 'AB':
+        jobs.append({'space': 'two-threads', 'first': first, 'tier': tier,
+                     'weight': 3000})
     n_one = count_desc(b['one_kind'])
     for lo, hi in core.chunks(n_one, 32 if tier == 'quick' else 256):
         jobs.append({'space': 'deep', 'kind': 'documented', 'lo': lo,
@@ -333,11 +337,88 @@ def run_sections(acc, P, gen):
     acc.sample('sections', {'layout': [0, 1, 2]})
 
 
+def run_two_threads(acc, P, gen, job):
+    """Engine E3: two samples are generated at the same time in one process
+    (a YAML one for namespace alpha into one file, a JSON one for namespace
+    beta into another): each file holds exactly what its generation writes
+    when it runs alone, and nothing reaches the console."""
+    import sys
+    from mc import pairs
+    w = world.FileWorld()
+    nss = {'alpha': [P.RuleDefault('a:one', 'role:a', description='first'),
+                     P.RuleDefault('a:two', 'role:b or role:c')],
+           'beta': [P.RuleDefault('b:one', '@'),
+                    P.RuleDefault('b:two', 'not role:x')]}
+    spec = {'A': ('alpha', 'yaml', w.path('a.out')),
+            'B': ('beta', 'json', w.path('b.out'))}
+
+    def one(n):
+        ns, fmt, path = spec[n]
+        if os.path.exists(path):
+            os.unlink(path)
+        console = io.StringIO()
+        old = sys.stdout
+        sys.stdout = console
+        try:
+            gen._generate_sample([ns], output_file=path, output_format=fmt)
+        finally:
+            mine = sys.stdout is console
+            sys.stdout = old
+        text = open(path).read() if os.path.exists(path) else None
+        return (text, console.getvalue() if n == 'A' else '', mine or n == 'B')
+    try:
+        with world.entry_points(policies=nss):
+            core.quiet_logging()
+            expected = {n: one(n) for n in 'AB'}
+            if not expected['A'][0] or 'b:one' not in expected['B'][0]:
+                raise core.HarnessError('sequential samples look wrong')
+
+            def body(n):
+                ns, fmt, path = spec[n]
+                gen._generate_sample([ns], output_file=path,
+                                     output_format=fmt)
+                return open(path).read() if os.path.exists(path) else None
+
+            def make_bodies():
+                for n in 'AB':
+                    if os.path.exists(spec[n][2]):
+                        os.unlink(spec[n][2])
+                return {n: (lambda n=n: body(n)) for n in 'AB'}
+            console = io.StringIO()
+            old = sys.stdout
+            sys.stdout = console
+            try:
+                n_ex = pairs.explore(
+                    acc, 'two-threads', 'yaml+json', make_bodies,
+                    {n: expected[n][0] for n in 'AB'}, 2,
+                    lambda n: '%s sample of namespace %s' % (spec[n][1],
+                                                             spec[n][0]),
+                    firsts=(job['first'],))
+            finally:
+                leaked = sys.stdout is not console
+                sys.stdout = old
+            if console.getvalue() or leaked:
+                acc.violation(
+                    'two-threads|console',
+                    'sample text reached the console (%d characters) or the '
+                    'process was left with another sys.stdout (%s)' %
+                    (len(console.getvalue()), leaked), {}, '', 'console',
+                    'two-threads')
+            acc.add('two_thread_executions', n_ex)
+    finally:
+        w.destroy()
+    acc.sample('two-threads', {'samples': [list(v[:2]) for v in
+                                           spec.values()]})
+
+
 def run(job, seed):
     from oslo_policy import generator as gen, policy as P
     acc = core.Acc()
     if job['space'] == 'sections':
         run_sections(acc, P, gen)
+        return acc.result()
+    if job['space'] == 'two-threads':
+        run_two_threads(acc, P, gen, job)
         return acc.result()
     it = itertools.islice(descriptions(job['n']), job['lo'], job['hi'])
     for i, (desc, k) in enumerate(it, job['lo']):
